@@ -4,5 +4,6 @@ CONSTANTS
   LeaveFix = TRUE
   MaxResets = 100
   Faults = TRUE
+  StaleAcks = FALSE
   MaxProcs = 100
 CHECK_DEADLOCK FALSE
